@@ -30,6 +30,11 @@ impl vstd::std_specs::cmp::PartialEqSpecImpl for U256 {
 pub assume_specification[ <U256 as core::cmp::PartialEq>::eq ](a: &U256, b: &U256) -> (r: bool);
 
 //@include word_use/items.rs
+//@dropped merge: the three `Packed x _` arms (Packed x DynamicArray|Bytes, Packed x Packed, Packed x Word) are R-OPAQUE: replaced by an external_body stand-in with NO postcondition (itertools sorted_by_key/unique/collect_vec, closures, fresh type-variable allocation through &mut TypeCheckerState); nothing is claimed for any operand pair with a Packed side (their delegating arms `(DynamicArray|Bytes|Word, Packed) => merge(right, left, ..)` stay verbatim and are covered by the termination measure only)
+//@dropped merge: the two `panic!("Equalities should not exist…", x.clone())` arms are R-CALL to a stand-in with `requires false`; `Equal` operands are excluded by merge's precondition (C14), the call site in `unify` is not under contract in this unit
+//@dropped TypeExpression::conflict_with: closure + Vec::extend, assumed to return a `Conflict` (A-CALLEE); the payload clause of DESIGN §6 C15 ("conflicts contains both sides") is NOT proved
+//@dropped TypeExpression::{numeric, unsigned_word, signed_word, bytes, eq, mapping, dyn_array, packed_of, struct_of, is_type_constructor}, Display impls, Span accessors: not under contract in this unit
+//@dropped unify (fixpoint, population loops, fold over HashSet): not under contract (C14 termination/one-type-per-variable are not decided, DESIGN §6 C14)
 
 // =================================================================================================
 // Types (extracted verbatim; derive lists replaced as A-DERIVE says)
@@ -151,6 +156,25 @@ pub open spec fn eqs_te(l: A, r: A) -> Seq<Equality> {
     else { seq![] }
 }
 
+/// which of two unified variables stays in the result is not fixed by any property ("up to … the choice
+/// of representative among variables it equates", C16): the result is the join with either operand's
+/// variables kept (the two differ only for mapping x mapping, array x array)
+pub open spec fn jf(l: A, r: A, flip: bool) -> A { if flip { join_te(r, l) } else { join_te(l, r) } }
+pub open spec fn joins(res: A, l: A, r: A) -> bool { res == join_te(l, r) || res == join_te(r, l) }
+pub open spec fn is_pair(e: Equality, x: TypeVariable, y: TypeVariable) -> bool {
+    (e.left == x && e.right == y) || (e.left == y && e.right == x)
+}
+/// the unordered pair {x, y} is among the equalities `s`
+pub open spec fn in_pairs(s: Seq<Equality>, x: TypeVariable, y: TypeVariable) -> bool {
+    exists|i: int| 0 <= i < s.len() && is_pair(#[trigger] s[i], x, y)
+}
+/// the emitted list is the component equalities of C14 ([k1=k2, v1=v2] / [e1=e2]); which side of an equality is
+/// written first is immaterial ("a symmetrical equality", src/tc/unification.rs)
+pub open spec fn same_eq(e: Equality, f: Equality) -> bool { e == f || (e.left == f.right && e.right == f.left) }
+pub open spec fn emits(s: Seq<Equality>, l: A, r: A) -> bool {
+    s.len() == eqs_te(l, r).len() && forall|i: int| 0 <= i < s.len() ==> same_eq(#[trigger] s[i], eqs_te(l, r)[i])
+}
+
 // =================================================================================================
 // Callees
 // =================================================================================================
@@ -227,25 +251,25 @@ reason: &str
 //@extract file=src/tc/unification.rs path="impl Merge|fn new" props=C14,C01
 //@ret r
 //@spec
-        ensures r.expression == expression, r.equalities == equalities, r.judgements == judgements, r.ty_vars == ty_vars,
+        ensures r.expression == expression, r.equalities == equalities, r.judgements == judgements, r.ty_vars == ty_vars,      //@ob C14.mg.Merge.new
 //@end
 
 //@extract file=src/tc/unification.rs path="impl Merge|fn expression" props=C14,C01
 //@ret r
 //@spec
-        ensures r.expression == expression, r.equalities@.len() == 0, r.judgements@.len() == 0, r.ty_vars@.len() == 0,
+        ensures r.expression == expression, r.equalities@.len() == 0, r.judgements@.len() == 0, r.ty_vars@.len() == 0,      //@ob C14.mg.Merge.expression
 //@end
 
 //@extract file=src/tc/unification.rs path="impl Merge|fn equalities" props=C14,C01
 //@ret r
 //@spec
-        ensures r.expression == expression, r.equalities == equalities, r.judgements@.len() == 0, r.ty_vars@.len() == 0,
+        ensures r.expression == expression, r.equalities == equalities, r.judgements@.len() == 0, r.ty_vars@.len() == 0,      //@ob C14.mg.Merge.equalities
 //@end
 
 //@extract file=src/tc/unification.rs path="impl Merge|fn judgements" props=C14,C01
 //@ret r
 //@spec
-        ensures r.expression == expression, r.equalities@.len() == 0, r.judgements == judgements, r.ty_vars@.len() == 0,
+        ensures r.expression == expression, r.equalities@.len() == 0, r.judgements == judgements, r.ty_vars@.len() == 0,      //@ob C14.mg.Merge.judgements
 //@end
 }
 
@@ -254,7 +278,7 @@ reason: &str
 //@extract file=src/tc/unification.rs path="impl Equality|fn new" props=C14,C01
 //@ret r
 //@spec
-        ensures r == (Equality { left, right }),
+        ensures r == (Equality { left, right }),      //@ob C14.mg.Equality.new
 //@end
 }
 
@@ -263,7 +287,7 @@ reason: &str
 //@extract file=src/tc/unification.rs path="impl Judgement|fn new" props=C14,C01
 //@ret r
 //@spec
-        ensures r.tv == tv, r.expr == expr,
+        ensures r.tv == tv, r.expr == expr,      //@ob C14.mg.Judgement.new
 //@end
 }
 
@@ -375,17 +399,29 @@ vx_panic()
         (left is Bytes && right is DynamicArray) || (left is DynamicArray && right is Bytes) || (left is Bytes && right is Bytes)
             ==> abs(m.expression) == join_te(abs(left), abs(right)),                                   //@ob C15.mg.merge.bytes_dyn
         left is DynamicArray && right is DynamicArray
-            ==> abs(m.expression) == join_te(abs(left), abs(right)),                                   //@ob C15.mg.merge.dyn_dyn C14.mg.merge.dyn_dyn
+            ==> joins(abs(m.expression), abs(left), abs(right)),                                   //@ob C15.mg.merge.dyn_dyn C14.mg.merge.dyn_dyn
         left is FixedArray && right is FixedArray
-            ==> abs(m.expression) == join_te(abs(left), abs(right)),                                   //@ob C15.mg.merge.fixed_fixed C14.mg.merge.fixed_fixed
+            ==> joins(abs(m.expression), abs(left), abs(right)),                                   //@ob C15.mg.merge.fixed_fixed C14.mg.merge.fixed_fixed
         left is Mapping && right is Mapping
-            ==> abs(m.expression) == join_te(abs(left), abs(right)),                                   //@ob C15.mg.merge.map_map C14.mg.merge.map_map
+            ==> joins(abs(m.expression), abs(left), abs(right)),                                   //@ob C15.mg.merge.map_map C14.mg.merge.map_map
+        // ---- the contradictions C15/C14 name, stated directly ----
+        (left is Mapping && (right is Word || right is FixedArray || right is DynamicArray || right is Bytes))
+            || (right is Mapping && (left is Word || left is FixedArray || left is DynamicArray || left is Bytes))
+            ==> m.expression is Conflict,                                                              //@ob C15.mg.merge.mapping_vs_array_or_word
+        left is Word && right is Word && left->width is Some && right->width is Some && left->width != right->width
+            ==> m.expression is Conflict,                                                              //@ob C15.mg.merge.two_different_widths
+        left is Word && right is Word && join_use(left->usage, right->usage) is None
+            ==> m.expression is Conflict,                                                              //@ob C15.mg.merge.incompatible_usages
+        left is FixedArray && right is FixedArray && left->length != right->length
+            ==> m.expression is Conflict && m.equalities@.len() == 0,                                  //@ob C14.mg.merge.fixed_length_clash
         // ---- the whole fragment (the contract the laws below are stated over) ----
-        frag(abs(left)) && frag(abs(right)) ==> abs(m.expression) == join_te(abs(left), abs(right)),   //@ob C15.mg.merge.join C16.mg.merge.join
-        frag(abs(left)) && frag(abs(right)) ==> m.equalities@ =~= eqs_te(abs(left), abs(right)),       //@ob C14.mg.merge.equalities C16.mg.merge.equalities
+        frag(abs(left)) && frag(abs(right)) ==> joins(abs(m.expression), abs(left), abs(right)),       //@ob C15.mg.merge.join C16.mg.merge.join
+        frag(abs(left)) && frag(abs(right)) ==> emits(m.equalities@, abs(left), abs(right)),           //@ob C14.mg.merge.equalities C16.mg.merge.equalities
         frag(abs(left)) && frag(abs(right)) ==> m.judgements@.len() == 0 && m.ty_vars@.len() == 0,     //@ob C16.mg.merge.no_side_output
         frag(abs(left)) && frag(abs(right)) ==> !(m.expression is Equal),                              //@ob C14.mg.merge.never_equal
     decreases flips(left, right),
+//@proof entry
+    proof { if left is Word && right is Word { lemma_join_use_closed_form(left->usage, right->usage); } }
 //@end
 
 
@@ -449,13 +485,6 @@ pub open spec fn shape(a: A) -> Shape {
         _ => Shape::Other,
     }
 }
-pub open spec fn is_pair(e: Equality, x: TypeVariable, y: TypeVariable) -> bool {
-    (e.left == x && e.right == y) || (e.left == y && e.right == x)
-}
-/// the unordered pair {x, y} is among the equalities `s`
-pub open spec fn in_pairs(s: Seq<Equality>, x: TypeVariable, y: TypeVariable) -> bool {
-    exists|i: int| 0 <= i < s.len() && is_pair(#[trigger] s[i], x, y)
-}
 /// closed form of `in_pairs(eqs_te(l, r), x, y)`
 pub open spec fn em(l: A, r: A, x: TypeVariable, y: TypeVariable) -> bool {
     l != r && match (l, r) {
@@ -484,8 +513,22 @@ pub proof fn lemma_symmetric(a: A, b: A)
 }
 
 // ---- known finding D12 (DESIGN §5): `Bytes` and `DynamicArray` absorb word evidence ------------------
-// The three recorded classes, as exact predicates on the ordered triple (a, b, c) whose two groupings
-// (a ⊔ b) ⊔ c and a ⊔ (b ⊔ c) are compared.  Each `finding:` line of /verif/known_findings.txt names one.
+// The recorded classes, as EXACT predicates on the ordered triple (a, b, c) whose two groupings
+// (a ⊔ b) ⊔ c and a ⊔ (b ⊔ c) are compared.  The lemmas proved are `assoc ∨ class` (§2.3), and
+// `class ⇒ ¬assoc` (label C16.mg.d12.exact), so the carve-out excuses exactly the triples on which the
+// pinned code is not associative and nothing else.  Lines for /verif/known_findings.txt:
+//
+//   finding: property=C16 obligation=C16.mg.merge.associative class=bytes_word_word witness=(Bytes, Word<8,Bool>, Word<160,Address>)
+//   finding: property=C16 obligation=C16.mg.merge.associative class=dyn_word_word witness=(DynamicArray<v0>, Word<8,Bool>, Word<160,Address>)
+//   finding: property=C16 obligation=C16.mg.merge.associative_eqs class=bytes_dyn_dyn witness=(Bytes, DynamicArray<v0>, DynamicArray<v1>)
+//
+//   class bytes_word_word  = d12_bytes_word_word : Bytes first or last, the other two are not-signed words
+//                            that conflict with each other (different known widths, or incompatible usages)
+//   class dyn_word_word    = d12_dyn_word_word   : the same with a DynamicArray in place of Bytes
+//   class bytes_dyn_dyn    = d12_bytes_dyn_dyn   : Bytes first or last, the other two are dynamic arrays
+//                            over different element variables (only the emitted equalities differ)
+// With the absorber in the MIDDLE of the ordered triple both groupings agree (w1 ⊔ X) ⊔ w2 = X = w1 ⊔ (X ⊔ w2);
+// the unordered triple is still order-dependent through its other arrangements.
 /// two not-signed words that contradict each other (different known widths or incompatible usages)
 pub open spec fn clash(w1: A, w2: A) -> bool {
     w1 is Word && w2 is Word && length_word(w1) && length_word(w2) && join_te(w1, w2) is Conflict
@@ -504,24 +547,50 @@ pub open spec fn d12_dyn_word_word(a: A, b: A, c: A) -> bool {
 pub open spec fn d12_bytes_dyn_dyn(a: A, b: A, c: A) -> bool {
     (a is Bytes && b is Dyn && c is Dyn && b != c) || (c is Bytes && a is Dyn && b is Dyn && a != b)
 }
-pub open spec fn assoc_expr(a: A, b: A, c: A) -> bool {
-    shape(join_te(join_te(a, b), c)) == shape(join_te(a, join_te(b, c)))
+/// the two groupings agree on the expression; f1..f4: which operand's variables each of the four merges kept
+pub open spec fn assoc_expr(a: A, b: A, c: A, f1: bool, f2: bool, f3: bool, f4: bool) -> bool {
+    shape(jf(jf(a, b, f1), c, f3)) == shape(jf(a, jf(b, c, f2), f4))
 }
+pub open spec fn known_d12_expr(a: A, b: A, c: A) -> bool { d12_bytes_word_word(a, b, c) || d12_dyn_word_word(a, b, c) }
 
-pub proof fn lemma_associative_expr(a: A, b: A, c: A)
-    requires frag(a), frag(b), frag(c),
-    ensures
-        assoc_expr(a, b, c) || d12_bytes_word_word(a, b, c) || d12_dyn_word_word(a, b, c),             //@ob C16.mg.merge.associative
-        // the carve-out is exact: inside the two classes the groupings really differ (the finding is real, and
-        // the predicates excuse nothing else)
-        d12_bytes_word_word(a, b, c) || d12_dyn_word_word(a, b, c) ==> !assoc_expr(a, b, c),           //@ob C16.mg.d12.exact
+/// the outcome's shape depends only on the operands' shapes (not on which variables they mention)
+pub proof fn lemma_shape_congruence(x1: A, x2: A, y1: A, y2: A)
+    requires shape(x1) == shape(x2), shape(y1) == shape(y2), frag(x1), frag(x2), frag(y1), frag(y2),
+    ensures shape(join_te(x1, y1)) == shape(join_te(x2, y2)),
 {
     assert forall|x: WordUse, y: WordUse| join_use(x, y) == join_use_cf(x, y) by { lemma_join_use_closed_form(x, y); }
 }
+/// associativity with every merge keeping its left operand's variables (the code's choice)
+pub proof fn lemma_associative_expr0(a: A, b: A, c: A)
+    requires frag(a), frag(b), frag(c),
+    ensures
+        assoc_expr(a, b, c, false, false, false, false) || d12_bytes_word_word(a, b, c) || d12_dyn_word_word(a, b, c),
+        d12_bytes_word_word(a, b, c) || d12_dyn_word_word(a, b, c) ==> !assoc_expr(a, b, c, false, false, false, false),
+{
+    assert forall|x: WordUse, y: WordUse| join_use(x, y) == join_use_cf(x, y) by { lemma_join_use_closed_form(x, y); }
+}
+/// ... and with any choice of representatives
+pub proof fn lemma_associative_expr(a: A, b: A, c: A, f1: bool, f2: bool, f3: bool, f4: bool)
+    requires frag(a), frag(b), frag(c),
+    ensures
+        assoc_expr(a, b, c, f1, f2, f3, f4) || d12_bytes_word_word(a, b, c) || d12_dyn_word_word(a, b, c),   //@ob C16.mg.merge.associative
+        // the carve-out is exact: inside the two classes the groupings really differ (the finding is real, and
+        // the predicates excuse nothing else)
+        d12_bytes_word_word(a, b, c) || d12_dyn_word_word(a, b, c) ==> !assoc_expr(a, b, c, f1, f2, f3, f4),   //@ob C16.mg.d12.exact
+{
+    lemma_associative_expr0(a, b, c);
+    lemma_join_te_c15(a, b, a); lemma_join_te_c15(b, a, a); lemma_join_te_c15(b, c, a); lemma_join_te_c15(c, b, a);   // closure of the fragment
+    lemma_symmetric(a, b);
+    lemma_symmetric(b, c);
+    lemma_symmetric(jf(a, b, f1), c);
+    lemma_symmetric(a, jf(b, c, f2));
+    lemma_shape_congruence(jf(a, b, f1), join_te(a, b), c, c);
+    lemma_shape_congruence(a, a, jf(b, c, f2), join_te(b, c));
+}
 
 /// equalities emitted by the grouping (a ⊔ b) ⊔ c, resp. a ⊔ (b ⊔ c), accumulated over both merges
-pub open spec fn el(a: A, b: A, c: A, x: TypeVariable, y: TypeVariable) -> bool { em(a, b, x, y) || em(join_te(a, b), c, x, y) }
-pub open spec fn er(a: A, b: A, c: A, x: TypeVariable, y: TypeVariable) -> bool { em(b, c, x, y) || em(a, join_te(b, c), x, y) }
+pub open spec fn el(a: A, b: A, c: A, f1: bool, x: TypeVariable, y: TypeVariable) -> bool { em(a, b, x, y) || em(jf(a, b, f1), c, x, y) }
+pub open spec fn er(a: A, b: A, c: A, f2: bool, x: TypeVariable, y: TypeVariable) -> bool { em(b, c, x, y) || em(a, jf(b, c, f2), x, y) }
 /// x and y are connected by at most two pairs of `f`
 pub open spec fn conn2(f: spec_fn(TypeVariable, TypeVariable) -> bool, x: TypeVariable, y: TypeVariable) -> bool {
     x == y || f(x, y) || exists|z: TypeVariable| #[trigger] f(x, z) && f(z, y)
@@ -529,46 +598,142 @@ pub open spec fn conn2(f: spec_fn(TypeVariable, TypeVariable) -> bool, x: TypeVa
 /// Both groupings equate the same variables (each pair of one is connected through <= 2 pairs of the
 /// other).  Interpretation (DESIGN §6 C16): when the combined result is a conflict the equalities
 /// emitted on the way are not compared — C14 exempts contradictory evidence from component unification.
-pub proof fn lemma_associative_eqs(a: A, b: A, c: A, x: TypeVariable, y: TypeVariable)
+pub proof fn lemma_associative_eqs(a: A, b: A, c: A, f1: bool, f2: bool, x: TypeVariable, y: TypeVariable)
     requires
         frag(a), frag(b), frag(c),
         !(join_te(join_te(a, b), c) is Conflict), !(join_te(a, join_te(b, c)) is Conflict),
     ensures
-        d12_bytes_dyn_dyn(a, b, c) || (el(a, b, c, x, y) ==> conn2(|p: TypeVariable, q: TypeVariable| er(a, b, c, p, q), x, y)),   //@ob C16.mg.merge.associative_eqs
-        d12_bytes_dyn_dyn(a, b, c) || (er(a, b, c, x, y) ==> conn2(|p: TypeVariable, q: TypeVariable| el(a, b, c, p, q), x, y)),   //@ob C16.mg.merge.associative_eqs
+        d12_bytes_dyn_dyn(a, b, c) || (el(a, b, c, f1, x, y) ==> conn2(|p: TypeVariable, q: TypeVariable| er(a, b, c, f2, p, q), x, y)),   //@ob C16.mg.merge.associative_eqs
+        d12_bytes_dyn_dyn(a, b, c) || (er(a, b, c, f2, x, y) ==> conn2(|p: TypeVariable, q: TypeVariable| el(a, b, c, f1, p, q), x, y)),   //@ob C16.mg.merge.associative_eqs
 {
     assert forall|u: WordUse, v: WordUse| join_use(u, v) == join_use_cf(u, v) by { lemma_join_use_closed_form(u, v); }
-    let fr = |p: TypeVariable, q: TypeVariable| er(a, b, c, p, q);
-    let fl = |p: TypeVariable, q: TypeVariable| el(a, b, c, p, q);
+    let fr = |p: TypeVariable, q: TypeVariable| er(a, b, c, f2, p, q);
+    let fl = |p: TypeVariable, q: TypeVariable| el(a, b, c, f1, p, q);
     // candidate middle points: the component variables of the three operands
     match (a, b, c) {
         (A::Map { key: k1, value: v1 }, A::Map { key: k2, value: v2 }, A::Map { key: k3, value: v3 }) => {
-            if el(a, b, c, x, y) { assert(fr(x, y) || x == y || fr(x, k1) && fr(k1, y) || fr(x, k2) && fr(k2, y) || fr(x, k3) && fr(k3, y) || fr(x, v1) && fr(v1, y) || fr(x, v2) && fr(v2, y) || fr(x, v3) && fr(v3, y)); }
-            if er(a, b, c, x, y) { assert(fl(x, y) || x == y || fl(x, k1) && fl(k1, y) || fl(x, k2) && fl(k2, y) || fl(x, k3) && fl(k3, y) || fl(x, v1) && fl(v1, y) || fl(x, v2) && fl(v2, y) || fl(x, v3) && fl(v3, y)); }
+            if el(a, b, c, f1, x, y) { assert(fr(x, y) || x == y || fr(x, k1) && fr(k1, y) || fr(x, k2) && fr(k2, y) || fr(x, k3) && fr(k3, y) || fr(x, v1) && fr(v1, y) || fr(x, v2) && fr(v2, y) || fr(x, v3) && fr(v3, y)); }
+            if er(a, b, c, f2, x, y) { assert(fl(x, y) || x == y || fl(x, k1) && fl(k1, y) || fl(x, k2) && fl(k2, y) || fl(x, k3) && fl(k3, y) || fl(x, v1) && fl(v1, y) || fl(x, v2) && fl(v2, y) || fl(x, v3) && fl(v3, y)); }
         },
         (A::Dyn { element: e1 }, A::Dyn { element: e2 }, A::Dyn { element: e3 }) => {
-            if el(a, b, c, x, y) { assert(fr(x, y) || x == y || fr(x, e1) && fr(e1, y) || fr(x, e2) && fr(e2, y) || fr(x, e3) && fr(e3, y)); }
-            if er(a, b, c, x, y) { assert(fl(x, y) || x == y || fl(x, e1) && fl(e1, y) || fl(x, e2) && fl(e2, y) || fl(x, e3) && fl(e3, y)); }
+            if el(a, b, c, f1, x, y) { assert(fr(x, y) || x == y || fr(x, e1) && fr(e1, y) || fr(x, e2) && fr(e2, y) || fr(x, e3) && fr(e3, y)); }
+            if er(a, b, c, f2, x, y) { assert(fl(x, y) || x == y || fl(x, e1) && fl(e1, y) || fl(x, e2) && fl(e2, y) || fl(x, e3) && fl(e3, y)); }
         },
         (A::Fixed { element: e1, .. }, A::Fixed { element: e2, .. }, A::Fixed { element: e3, .. }) => {
-            if el(a, b, c, x, y) { assert(fr(x, y) || x == y || fr(x, e1) && fr(e1, y) || fr(x, e2) && fr(e2, y) || fr(x, e3) && fr(e3, y)); }
-            if er(a, b, c, x, y) { assert(fl(x, y) || x == y || fl(x, e1) && fl(e1, y) || fl(x, e2) && fl(e2, y) || fl(x, e3) && fl(e3, y)); }
+            if el(a, b, c, f1, x, y) { assert(fr(x, y) || x == y || fr(x, e1) && fr(e1, y) || fr(x, e2) && fr(e2, y) || fr(x, e3) && fr(e3, y)); }
+            if er(a, b, c, f2, x, y) { assert(fl(x, y) || x == y || fl(x, e1) && fl(e1, y) || fl(x, e2) && fl(e2, y) || fl(x, e3) && fl(e3, y)); }
         },
         _ => {},
     }
 }
-/// ... and inside the class the two groupings really disagree on what they equate
-pub proof fn lemma_d12_bytes_dyn_dyn_exact(a: A, b: A, c: A)
+/// ... and inside the class the two groupings really disagree on what they equate: one of them equates the
+/// two element variables, the other equates nothing
+pub proof fn lemma_d12_bytes_dyn_dyn_exact(a: A, b: A, c: A, f1: bool, f2: bool)
     requires d12_bytes_dyn_dyn(a, b, c),
     ensures
-        exists|x: TypeVariable, y: TypeVariable| x != y && el(a, b, c, x, y) != er(a, b, c, x, y)
-            && !(exists|p: TypeVariable, q: TypeVariable| p != q && el(a, b, c, p, q) && er(a, b, c, p, q)),    //@ob C16.mg.d12.exact
+        exists|x: TypeVariable, y: TypeVariable| x != y && el(a, b, c, f1, x, y) != er(a, b, c, f2, x, y),    //@ob C16.mg.d12.exact
+        !(exists|p: TypeVariable, q: TypeVariable| el(a, b, c, f1, p, q) && er(a, b, c, f2, p, q)),         //@ob C16.mg.d12.exact
 {
     if a is Bytes {
-        assert(er(a, b, c, b->Dyn_element, c->Dyn_element) && !el(a, b, c, b->Dyn_element, c->Dyn_element));
+        assert(er(a, b, c, f2, b->Dyn_element, c->Dyn_element) && !el(a, b, c, f1, b->Dyn_element, c->Dyn_element));
     } else {
-        assert(el(a, b, c, a->Dyn_element, b->Dyn_element) && !er(a, b, c, a->Dyn_element, b->Dyn_element));
+        assert(el(a, b, c, f1, a->Dyn_element, b->Dyn_element) && !er(a, b, c, f2, a->Dyn_element, b->Dyn_element));
     }
+}
+
+pub proof fn lemma_in_pairs_concat(s: Seq<Equality>, t: Seq<Equality>, x: TypeVariable, y: TypeVariable)
+    ensures in_pairs(s + t, x, y) == (in_pairs(s, x, y) || in_pairs(t, x, y))
+{
+    let st = s + t;
+    if in_pairs(s, x, y) { let i = choose|i: int| 0 <= i < s.len() && is_pair(#[trigger] s[i], x, y); assert(st[i] == s[i]); }
+    if in_pairs(t, x, y) { let i = choose|i: int| 0 <= i < t.len() && is_pair(#[trigger] t[i], x, y); assert(st[i + s.len()] == t[i]); }
+    if in_pairs(st, x, y) {
+        let i = choose|i: int| 0 <= i < st.len() && is_pair(#[trigger] st[i], x, y);
+        if i < s.len() { assert(st[i] == s[i]); } else { assert(st[i] == t[i - s.len()]); }
+    }
+}
+/// what a list satisfying `merge`'s equalities clause equates
+pub proof fn lemma_emits_pairs(s: Seq<Equality>, l: A, r: A, x: TypeVariable, y: TypeVariable)
+    requires emits(s, l, r),
+    ensures in_pairs(s, x, y) == em(l, r, x, y),
+{
+    lemma_em_is_eqs(l, r, x, y);
+    let e = eqs_te(l, r);
+    if in_pairs(s, x, y) { let i = choose|i: int| 0 <= i < s.len() && is_pair(#[trigger] s[i], x, y); assert(is_pair(e[i], x, y)); }
+    if in_pairs(e, x, y) { let i = choose|i: int| 0 <= i < e.len() && is_pair(#[trigger] e[i], x, y); assert(is_pair(s[i], x, y)); }
+}
+
+// =================================================================================================
+// The laws on the REAL `merge`: exec harnesses (template code, never compiled into the crate) that
+// call the extracted function and are verified against its contract above — this is the step that
+// connects `merge` to `join_te`/`eqs_te`; if `merge`'s postcondition is weakened these stop verifying.
+// Operands are passed twice (ghost-equal copies) because `merge` consumes them.
+// =================================================================================================
+fn law_symmetric(l1: TE, r1: TE, l2: TE, r2: TE, tv: TypeVariable, state: &mut TypeCheckerState)
+    requires l1 == l2, r1 == r2, frag(abs(l1)), frag(abs(r1)),
+{
+    let m1 = merge(l1, r1, tv, state);
+    let m2 = merge(r2, l2, tv, state);
+    proof {
+        lemma_symmetric(abs(l1), abs(r1));
+        assert forall|x: TypeVariable, y: TypeVariable| in_pairs(m1.equalities@, x, y) == in_pairs(m2.equalities@, x, y) by {
+            lemma_emits_pairs(m1.equalities@, abs(l1), abs(r1), x, y);
+            lemma_emits_pairs(m2.equalities@, abs(r1), abs(l1), x, y);
+        }
+    }
+    assert(shape(abs(m1.expression)) == shape(abs(m2.expression)));                                    //@ob C16.mg.law.symmetric
+    assert(forall|x: TypeVariable, y: TypeVariable| in_pairs(m1.equalities@, x, y) == in_pairs(m2.equalities@, x, y));   //@ob C16.mg.law.symmetric_eqs
+}
+
+fn law_associative(a1: TE, b1: TE, c1: TE, a2: TE, b2: TE, c2: TE, tv: TypeVariable, state: &mut TypeCheckerState)
+    requires a1 == a2, b1 == b2, c1 == c2, frag(abs(a1)), frag(abs(b1)), frag(abs(c1)),
+{
+    let ghost (a, b, c) = (abs(a1), abs(b1), abs(c1));
+    proof { lemma_join_te_c15(a, b, a); lemma_join_te_c15(b, a, a); lemma_join_te_c15(b, c, a); lemma_join_te_c15(c, b, a); }
+    let ab = merge(a1, b1, tv, state);
+    let Merge { expression: ab_e, equalities: ab_q, .. } = ab;
+    let ghost f1 = abs(ab_e) != join_te(a, b);
+    let ab_c = merge(ab_e, c1, tv, state);
+    let ghost f3 = abs(ab_c.expression) != join_te(jf(a, b, f1), c);
+    let bc = merge(b2, c2, tv, state);
+    let Merge { expression: bc_e, equalities: bc_q, .. } = bc;
+    let ghost f2 = abs(bc_e) != join_te(b, c);
+    let a_bc = merge(a2, bc_e, tv, state);
+    let ghost f4 = abs(a_bc.expression) != join_te(a, jf(b, c, f2));
+    assert(abs(ab_c.expression) == jf(jf(a, b, f1), c, f3) && abs(a_bc.expression) == jf(a, jf(b, c, f2), f4));
+    proof { lemma_associative_expr(a, b, c, f1, f2, f3, f4); }
+    assert(shape(abs(ab_c.expression)) == shape(abs(a_bc.expression)) || known_d12_expr(a, b, c));     //@ob C16.mg.law.associative
+    // everything the left grouping equates is equated by the right grouping, and vice versa
+    let ghost lq = ab_q@ + ab_c.equalities@;
+    let ghost rq = bc_q@ + a_bc.equalities@;
+    proof {
+        if !(ab_c.expression is Conflict) && !(a_bc.expression is Conflict) && !d12_bytes_dyn_dyn(a, b, c) {
+            lemma_symmetric(a, b); lemma_symmetric(b, c); lemma_symmetric(jf(a, b, f1), c); lemma_symmetric(a, jf(b, c, f2));
+            lemma_shape_congruence(jf(a, b, f1), join_te(a, b), c, c); lemma_shape_congruence(a, a, jf(b, c, f2), join_te(b, c));
+            assert forall|x: TypeVariable, y: TypeVariable| in_pairs(lq, x, y) == el(a, b, c, f1, x, y) by {
+                lemma_emits_pairs(ab_q@, a, b, x, y); lemma_emits_pairs(ab_c.equalities@, jf(a, b, f1), c, x, y); lemma_in_pairs_concat(ab_q@, ab_c.equalities@, x, y);
+            }
+            assert forall|x: TypeVariable, y: TypeVariable| in_pairs(rq, x, y) == er(a, b, c, f2, x, y) by {
+                lemma_emits_pairs(bc_q@, b, c, x, y); lemma_emits_pairs(a_bc.equalities@, a, jf(b, c, f2), x, y); lemma_in_pairs_concat(bc_q@, a_bc.equalities@, x, y);
+            }
+            assert forall|x: TypeVariable, y: TypeVariable| (in_pairs(lq, x, y) ==> conn2(|p: TypeVariable, q: TypeVariable| in_pairs(rq, p, q), x, y))
+                && (in_pairs(rq, x, y) ==> conn2(|p: TypeVariable, q: TypeVariable| in_pairs(lq, p, q), x, y)) by {
+                lemma_associative_eqs(a, b, c, f1, f2, x, y);
+                let fr = |p: TypeVariable, q: TypeVariable| er(a, b, c, f2, p, q);
+                let fl = |p: TypeVariable, q: TypeVariable| el(a, b, c, f1, p, q);
+                let gr = |p: TypeVariable, q: TypeVariable| in_pairs(rq, p, q);
+                let gl = |p: TypeVariable, q: TypeVariable| in_pairs(lq, p, q);
+                assert forall|p: TypeVariable, q: TypeVariable| #[trigger] fr(p, q) == gr(p, q) by {}
+                assert forall|p: TypeVariable, q: TypeVariable| #[trigger] fl(p, q) == gl(p, q) by {}
+                if in_pairs(lq, x, y) && !(x == y || gr(x, y)) { let z = choose|z: TypeVariable| #[trigger] fr(x, z) && fr(z, y); assert(gr(x, z) && gr(z, y)); }
+                if in_pairs(rq, x, y) && !(x == y || gl(x, y)) { let z = choose|z: TypeVariable| #[trigger] fl(x, z) && fl(z, y); assert(gl(x, z) && gl(z, y)); }
+            }
+        }
+    }
+    assert(ab_c.expression is Conflict || a_bc.expression is Conflict || d12_bytes_dyn_dyn(a, b, c)
+        || forall|x: TypeVariable, y: TypeVariable|
+            (in_pairs(lq, x, y) ==> conn2(|p: TypeVariable, q: TypeVariable| in_pairs(rq, p, q), x, y))
+            && (in_pairs(rq, x, y) ==> conn2(|p: TypeVariable, q: TypeVariable| in_pairs(lq, p, q), x, y)));      //@ob C16.mg.law.associative_eqs
 }
 
 } // verus!
